@@ -207,4 +207,33 @@ def specOk (s : Sys) : Bool :=
   | none, some o => o.foreign
   | none, none => true
 
+/-! ### trace inclusion: the writes the machine can make -/
+
+/-- is the change `p → p'` of a pair a write the controller machine can make (one helper call or one
+    Destroy), with the guards the C07 clauses give it: the finalizer goes on while it is missing, an
+    output is created only under the finalizer, destroyed only when tearing down without foreign
+    finalizers, the finalizer comes off only when no output is left. Used by the driver of engine
+    `ctrl` on the abstraction of the recorded store (Cosi.Model.CtrlMachine); `Cosi.C07.qt_machine_writes_ok`
+    proves that every controller action from a safe state passes it. -/
+def writeOk (p p' : Pair) : Bool :=
+  p == p' ||
+  -- AddFinalizer / RemoveFinalizer on the input
+  (p.out == p'.out && (match p.inp, p'.inp with
+    | some a, some b =>
+      a.phase == b.phase && a.foreign == b.foreign &&
+        ((!a.ctlFin && b.ctlFin) || (a.ctlFin && !b.ctlFin && p.out.isNone))
+    | _, _ => false)) ||
+  -- writes of the output
+  (p.inp == p'.inp && (match p.out, p'.out with
+    | none, some o => o.phase == .running && !o.foreign &&
+        (match p.inp with
+          | some i => i.ctlFin
+          | none => false)                                                   -- Modify creates
+    | some o, none => o.phase == .tearingDown && !o.foreign                  -- Destroy
+    | some o, some o' =>
+      o.foreign == o'.foreign &&
+        ((o.phase == .running && o'.phase == .running) ||                     -- Modify updates
+         (o'.phase == .tearingDown && o.fresh == o'.fresh))                   -- Teardown
+    | none, none => false))
+
 end Cosi.QT
